@@ -19,7 +19,7 @@ STUBS = ["call-exact: read likelihood of the target sample -> ln L_A(genotype) (
 ASSUMES = ["self-composition: the same path condition, two runs differing only in the other samples' data; the target sample's outputs must be equal terms",
            "pools / samples sharing one alignment file: the C06 driver (symbolic alignments behind the pysam contract stub) -- every column's read matrix is the concatenation of its own members' filtered pileups"]
 BOUNDS = {"quick": "wiring: assemble / call / call-exact (both paths) / call-pedigree with 3 samples of ploidy 2,3,4, distinct symbolic inbreeding, temperatures, reads and counts, 3 of the 6 sample orders (thorough: all 6); shared alignment file: pool and two-sample layouts, 2 alignments (thorough 3); call-exact: ploidy 2, 2-3 alleles, 2 samples + alone + swapped order; call: 2 samples, masks as in C16; assemble: C13 scenarios with 2 samples, each with and without the second sample; pools: all assignments of 3 samples to <= 2 pools",
-          "thorough": "adds ploidy 3 and 3-sample scenarios"}
+          "thorough": "adds ploidy 3 and 3-sample scenarios, all six sample orders in the program wiring, shared-file layouts on the wide domain (3 read groups, bases {REF, ALT, N})"}
 OUTSIDE = "physically merged BAM files and --sample-pool file parsing from disk; equality of MCMC output itself across runs is C08's seeding clause"
 TASKS_PER_CHILD = 2
 
@@ -49,8 +49,10 @@ def configs(tier):
         if prog != "call-pedigree":  # two samples of one ploidy that differ in inbreeding / reads / temperatures (anything keyed by ploidy would mix them up)
             out.append(dict(group="wiring", prog=prog, order=3, same_ploidy=True))
     if tier != "quick":
+        # (three alignments cost > 25 CPU-minutes per configuration: sized out; the thorough tier widens the domain instead:
+        # 3 read groups, bases {REF, ALT, N})
         for layout in ("two", "pool"):
-            out.append(dict(group="encode", k=3, ns=1, small=True, layout=layout))
+            out.append(dict(group="encode", k=2, ns=1, small=False, layout=layout))
     return out
 
 
